@@ -186,7 +186,7 @@ theorem eqBy_trans (f : α → α → Bool) (hf : ∀ x y z, f x y = true → f 
       exact hf v w u h1' h2'
 
 /-- equal well-formed dictionaries answer every look-up alike -/
-theorem eqBy_get? [DecidableEq α] {a b : Dict κ α} (ha : WF a) (hb : WF b)
+theorem eqBy_get [DecidableEq α] {a b : Dict κ α} (ha : WF a) (hb : WF b)
     (h : eqBy (· == ·) a b = true) (k : κ) : get? a k = get? b k := by
   obtain ⟨_, hall⟩ := (eqBy_iff _ ha).mp h
   cases hk : get? a k with
